@@ -53,7 +53,7 @@ func runSolver(ctx context.Context, sd solverDef, file string, timeoutS int) Sol
 		if l == "" {
 			continue
 		}
-		if strings.HasPrefix(l, "(error") && !strings.Contains(l, "model is not available") && !strings.Contains(l, "cannot get value") {
+		if strings.HasPrefix(l, "(error") && first == "" {
 			hadErr = true
 			continue
 		}
